@@ -146,14 +146,26 @@ def bad_choice_rejected(what, text):
 
 
 def environments_rejected(which):
+    """empty environment list, the reserved name 'default', non-string names: refused whatever container carries the list
+    (list, tuple, numpy array), through the constructor and through the setter; valid lists accepted"""
     sp, rs = [Species("A")], []
-    if which == 0:
-        return raises(lambda: RDNetwork(sp, rs, environments=[]))
-    if which == 1:
-        return raises(lambda: RDNetwork(sp, rs, environments=["a", "default"]))
-    if which == 2:
-        return raises(lambda: RDNetwork(sp, rs, environments=[1]))
-    return not raises(lambda: RDNetwork(sp, rs, environments=["a", "b"]))
+    bad = [[], ["a", "default"], [1], ["default"], ["a", 2.5, "b"]]
+    forms = [list, tuple, lambda v: np.array(v, dtype=object)]
+    if which < len(bad):
+        for f in forms:
+            v = f(bad[which])
+            if not raises(lambda: RDNetwork(sp, rs, environments=v)):
+                return False
+            net = RDNetwork(sp, rs, environments=["a", "b"])
+
+            def setit():
+                net.environments = v
+            if not raises(setit):
+                return False
+            if list(net.environments) != ["a", "b"]:
+                return False          # a refused assignment leaves the network as it was
+        return True
+    return all(not raises(lambda: RDNetwork(sp, rs, environments=f(["a", "b"]))) for f in forms)
 
 
 def position_rejected(kind, form, i, x, y, z):
